@@ -103,6 +103,7 @@ pub(crate) fn any_peripheral<'a>(
         diag,
         ext_diag: crate::dp::diagnostics::verif::mk_ext_diag(diag_buf, ext_len),
         diag_needed: kani::any(),
+        diag_requested: kani::any(),
         options: PeripheralOptions {
             ident_number: kani::any(),
             sync_mode: kani::any(),
@@ -210,6 +211,9 @@ fn transmit_step<const U: usize, const C: usize, const Q: usize, const B: usize>
     let pre_rc = p.retry_count;
     let pre_fcb = p.fcb;
     let pre_dn = p.diag_needed;
+    // a new request (retry counter 0) polls diagnostics iff the user or the peripheral asked
+    // for it; a retransmission repeats the kind of the request it retries
+    let diag_round = if p.retry_count == 0 { p.diag_needed } else { p.diag_requested };
     let addr = p.address;
     let limit = fdl.parameters().max_retry_limit;
     let hp = if kani::any() { HighPrioOnly::Yes } else { HighPrioOnly::No };
@@ -221,7 +225,7 @@ fn transmit_step<const U: usize, const C: usize, const Q: usize, const B: usize>
         Err((_tx, ev)) => (None, ev),
     };
 
-    let want = ref_next_request(pre_state, pre_rc, limit, pre_dn, has_prm, has_cfg);
+    let want = ref_next_request(pre_state, pre_rc, limit, diag_round, has_prm, has_cfg);
 
     // ---- C08: retry limit and Offline event -------------------------------------------------
     if pre_rc > limit {
@@ -355,7 +359,8 @@ fn receive_step<const I: usize, const D: usize, const P: usize>() {
     let pre_state = p.state;
     let pre_rc = p.retry_count;
     let pre_fcb = p.fcb;
-    let pre_dn = p.diag_needed;
+    let pre_dn = p.diag_requested; // is the outstanding request a diagnostics request?
+    let pre_needed = p.diag_needed;
     let pre_ext_len = crate::dp::diagnostics::verif::ext_diag_len(&p.ext_diag);
     let pre_diag = p.diag.clone();
     let addr = p.address;
@@ -448,7 +453,7 @@ fn receive_step<const I: usize, const D: usize, const P: usize>() {
     } else if pre_dn {
         assert!(p.state == pre_state, "C03/transition: a diagnostics round in data exchange does not change the state");
         assert!(event == if diag_ok { Some(PeripheralEvent::Diagnostics) } else { None }, "C14/lifecycle: Diagnostics event exactly for a well-formed diagnostics reply");
-        assert!(p.diag_needed == !diag_ok, "C03/transition: the diagnostics request is cleared exactly by a well-formed diagnostics reply");
+        assert!(p.diag_needed == (pre_needed && !diag_ok), "C03/transition: the diagnostics request is cleared exactly by a well-formed diagnostics reply");
     }
 
     // ---- C04: input process image -------------------------------------------------------------
@@ -572,4 +577,142 @@ fn c03_inv_initial() {
     p.pi_q_mut()[0] = kani::any();
     assert!(inv_dp(&p, &fdl), "C03/inv: user calls preserve the invariant");
     kani::cover!(true, "cover: new peripheral");
+}
+
+// ==========================================================================================
+// C08 pair harness: request, interlude, next request - judged on the decoded wire bytes
+// ==========================================================================================
+
+/// Decode a request frame produced by the peripheral (the decoder is the subject of C09/C10).
+fn wire_header(buf: &[u8], n: usize) -> DataTelegramHeader {
+    match Telegram::deserialize(&buf[..n]) {
+        Some(Ok((Telegram::Data(t), _))) => t.h.clone(),
+        _ => {
+            assert!(false, "C08/wire: every request is a well-formed data telegram");
+            unreachable!()
+        }
+    }
+}
+
+fn req_fcb(h: &DataTelegramHeader) -> (FrameCountBit, RequestType) {
+    match h.fc {
+        FunctionCode::Request { fcb, req } => (fcb, req),
+        _ => {
+            assert!(false, "C08/wire: a peripheral is only ever sent requests");
+            unreachable!()
+        }
+    }
+}
+
+#[kani::proof]
+#[kani::unwind(20)]
+fn c08_request_pair_q() {
+    let mut pi_i_store: [u8; 2] = kani::any();
+    let ilen: usize = kani::any();
+    kani::assume(ilen <= 2);
+    let mut pi_q_store: [u8; 2] = kani::any();
+    let user: [u8; 1] = kani::any();
+    let cfg: [u8; 1] = kani::any();
+    let mut diag_store = [0u8; 2];
+    let pi_i_before = pi_i_store;
+
+    let fdl = any_fdl();
+    let dp = crate::dp::master::verif::mk_dp_state(crate::dp::master::verif::any_operating());
+    let mut p = any_peripheral(&mut pi_i_store[..ilen], &mut pi_q_store[..], &mut diag_store[..], Some(&user[..]), Some(&cfg[..]));
+    kani::assume(inv_dp(&p, &fdl));
+    let addr = p.address;
+    let now = crate::time::Instant::from_micros(kani::any::<u32>());
+    let hp = HighPrioOnly::No;
+
+    // ---- first request --------------------------------------------------------------------
+    let mut buf1 = [0u8; 20];
+    let n1 = match p.transmit_telegram(now, &dp, &fdl, TelegramTx::new(&mut buf1), hp) {
+        Ok(r) => r.bytes_sent(),
+        Err(_) => return, // nothing outstanding: nothing to say about a pair
+    };
+    let h1 = wire_header(&buf1, n1);
+    let (fcb1, req1) = req_fcb(&h1);
+
+    // ---- interlude: user calls and at most one reply (or a time-out) -----------------------
+    if kani::any() {
+        p.request_diagnostics();
+    }
+    if kani::any() {
+        p.pi_q_mut()[0] = kani::any();
+    }
+    let state_a = p.state;
+    let diag_a = p.diag.clone();
+    let got_reply: bool = kani::any();
+    let mut event = None;
+    let pdu_store: [u8; 8] = kani::any();
+    if got_reply {
+        let plen: usize = kani::any();
+        kani::assume(plen <= 8);
+        let telegram = if kani::any() {
+            Telegram::ShortConfirmation(ShortConfirmation)
+        } else {
+            Telegram::Data(DataTelegram {
+                h: DataTelegramHeader {
+                    da: fdl.parameters().address,
+                    sa: addr,
+                    dsap: any_sap(),
+                    ssap: any_sap(),
+                    fc: any_response_fc(),
+                },
+                pdu: &pdu_store[..plen],
+            })
+        };
+        event = p.receive_reply(now, &dp, &fdl, telegram);
+    }
+    let mut image_changed = false;
+    let mut i = 0;
+    while i < ilen {
+        if p.pi_i()[i] != pi_i_before[i] {
+            image_changed = true;
+        }
+        i += 1;
+    }
+    let accepted = got_reply && (p.state != state_a || event.is_some() || p.diag != diag_a || image_changed);
+    if kani::any() {
+        p.request_diagnostics();
+    }
+
+    // ---- second request ---------------------------------------------------------------------
+    let mut buf2 = [0u8; 20];
+    match p.transmit_telegram(now, &dp, &fdl, TelegramTx::new(&mut buf2), hp) {
+        Ok(r) => {
+            let h2 = wire_header(&buf2, r.bytes_sent());
+            let (fcb2, req2) = req_fcb(&h2);
+            if fcb2.fcv() && fcb2.fcb() == fcb1.fcb() {
+                assert!(!accepted, "C08/same-fcb-after-accepted-reply: a request following an accepted reply never re-uses the frame count bit");
+                assert!(
+                    h2.da == h1.da && h2.dsap == h1.dsap && h2.ssap == h1.ssap && req2 == req1,
+                    "C08/same-fcb-different-service: two consecutive requests with the same frame count bit are the same service to the same destination (a retransmission)"
+                );
+                kani::cover!(got_reply, "cover: retransmission after a rejected reply");
+                kani::cover!(!got_reply, "cover: retransmission after a time-out");
+            }
+            if accepted {
+                assert!(fcb2.fcv() && fcb2.fcb() != fcb1.fcb(), "C08/toggle-after-accepted-reply: the request after an accepted reply toggles the bit with FCV=1");
+                kani::cover!(true, "cover: toggled request after accepted reply");
+            }
+            assert!(h2.da == addr, "C08/wire: requests go to the peripheral's address");
+        }
+        Err((_tx, Some(ev))) => {
+            assert!(ev == PeripheralEvent::Offline, "C08/offline-event: the only event of a transmit turn is Offline");
+            // the peripheral was declared offline: the next request is the first of a new life
+            let mut buf3 = [0u8; 20];
+            match p.transmit_telegram(now, &dp, &fdl, TelegramTx::new(&mut buf3), hp) {
+                Ok(r) => {
+                    let h3 = wire_header(&buf3, r.bytes_sent());
+                    let (fcb3, _) = req_fcb(&h3);
+                    assert!(h3.dsap == Some(60) && h3.ssap == Some(62), "C08/offline-probe: an offline peripheral is probed with a diagnostics request");
+                    assert!(!fcb3.fcv() && fcb3.fcb(), "C08/first-after-offline: the first request after the Offline event carries FCV=0/FCB=1");
+                    kani::cover!(true, "cover: first probe after Offline event");
+                }
+                Err(_) => assert!(false, "C08/offline-probe: a peripheral that was just declared offline is probed in the next turn"),
+            }
+        }
+        Err((_tx, None)) => {}
+    }
 }
